@@ -58,8 +58,8 @@ CHECKS = {
    text="Every fragment fed to the real reassembler is also fed to a reference byte map; delivery is demanded exactly when the reference is complete (incl. last fragment) and the delivered bytes are compared with the key/offset-coded original. Small scopes are enumerated completely (all compositions x orders x one extra duplicate/overlap), larger ones sampled; concurrent delivery runs under the race detector; the timeout clause runs in virtual time.",
    note="Trusted: the reference in h/c08; Go's testing/synctest for virtual time (go1.26.8). Contradictory overlaps and fragments beyond the datagram are out of the judged domain."),
  "C10": dict(level="exploration", ref="DESIGN.md §3 C10",
-   technique="runtime reference-model monitor in lock-step; porcupine linearizability check of recorded concurrent histories under the race detector; adaptive probe-sequence oracle for the ephemeral search",
-   text="Sequential op sequences are replayed against a reference reservation table after every step; concurrent reserve/release/availability histories from 2-8 goroutines are recorded at the call boundary and checked by porcupine (partitioned per transport/port) in a -race build; the ephemeral search is driven by a callback that picks the only acceptable port after seeing where the search started, so every call forces a chosen fraction of a full cycle.",
+   technique="runtime reference-model monitor in lock-step; porcupine linearizability check of recorded concurrent histories under the race detector; adaptive probe-sequence oracle for the ephemeral search; socket life cycles (bind/connect/listen/close over all families) in virtual time with a conflict rule and a everything-released-at-the-end rule",
+   text="Sequential op sequences are replayed against a reference reservation table after every step; concurrent reserve/release/availability histories from 2-8 goroutines are recorded at the call boundary and checked by porcupine (partitioned per transport/port) in a -race build; the ephemeral search is driven by a callback that picks the only acceptable port after seeing where the search started, so every call forces a chosen fraction of a full cycle. Endpoint phase: TCP/UDP sockets (IPv4, IPv6-only, dual-stack) are bound, connected, re-connected, listened on and closed in PRNG order; two live sockets with conflicting bind-time reservations cannot both have been bound, and after every socket is closed each port ever used can be bound again on every transport and family.",
    note="Trusted: reference table (6-bit set per transport/port), porcupine v1.3.0, logical clock (atomic counter)."),
  "C15": dict(level="exploration", ref="DESIGN.md §3 C15",
    technique="runtime differential monitor against an independent RFC codec (h/rfc): exhaustive per-field sweeps, exhaustive ChecksumCombine, every buffer length, option-sequence enumeration, hostile parser inputs with panic capture",
